@@ -102,3 +102,14 @@ func TupleProgram(op string, operands []Recipe, keep bool) []psref.Tok {
 	}
 	return append(toks, tx(op))
 }
+
+// Words makes a recipe from program text fragments (used for hostile pool
+// entries that the reference interpreter does not model).  Each word becomes
+// an executable-name token that is spelled verbatim.
+func Words(words ...string) []psref.Tok {
+	var out []psref.Tok
+	for _, w := range words {
+		out = append(out, psref.TX(w))
+	}
+	return out
+}
